@@ -9,7 +9,10 @@ RULE = ('class selection: every feasible path of the product (real Thumb decoder
         'bit-provenance tracer with a model-count check that the paths partition 2^32 / 2^16; ALL 2^16 Thumb-16 words x 3 IT positions decoded end-to-end; fetch length for all first halfwords; operands: per product path the '
         'witness, all-free-bits-0/1, each free bit alone and random members are decoded end-to-end by the emulator '
         '(decode + from_bitarray) and compared with the reference row\'s operand recipe; every 8th word is decoded twice '
-        'under different machine states and through a recording proxy; plus uniformly random words. non-trivial = a '
+        'under different machine states and through a recording proxy; plus uniformly random words, words generated from every '
+        'reference row (register pools, structured register lists, corner immediates), words one fixed bit away from a word of '
+        'another row, pairs of free bits per product path; a third of these after the same number has been decoded in the '
+        'OTHER instruction set on the same processor object (history independence). non-trivial = a '
         'defined instruction whose operands were compared; distinct = (row, product path, IT position)')
 ASSUMPTIONS = ['vf/ref/spec_t16.py / spec_t32.py transcribe the Thumb encoding tables (A6) and per-instruction decode pseudocode (A8)',
                'decoders reach the instruction word only through substring/bit_at/chain/bit_count (else the path is opaque)',
@@ -25,6 +28,9 @@ def plan(tier, seed):
     specs += [dict(kind='t16all', seed=seed, shard=i, lo=i * (65536 // nt), hi=(i + 1) * (65536 // nt)) for i in range(nt)]
     specs += [dict(kind='fetchlen', seed=seed, shard=i, lo=i * 16384, hi=(i + 1) * 16384) for i in range(4)]
     specs += [dict(kind='random', set='t32', seed=seed, shard=i, n=15000 if q else 400000) for i in range(4 if q else 16)]
+    nr = 8 if q else 32
+    specs += [dict(kind='rows', set='t32', seed=seed, shard=i, of=nr, per_row=120 if q else 8000) for i in range(nr)]
+    specs += [dict(kind='rows', set='t16', seed=seed, shard=i, of=2, per_row=120 if q else 4000) for i in range(2)]
     return specs
 
 
